@@ -172,3 +172,27 @@ Theorem C01_scope_found_iff : forall (st : sstate) (v : str),
   is_defined st v = true \/ (is_defined st v = false /\ fld v_fallback st v <> []).
 Proof. exact scope_found_iff. Qed.
 Print Assumptions C01_scope_found_iff.
+
+(* ===== Scope.DefineAll (what NewPackage does with the variables of mk/defaults/mk.conf) ===== *)
+
+(* DefineAll(other) never dereferences a nil entry or a nil lastDef when `other` was built by
+   Define/Fallback/Use, and the target then is the scope of the longer history: its own operations
+   followed, per name of `other` in sorted order, by Define(first line), Define(last line) -- so all
+   history theorems above apply to it *)
+Theorem C01_scope_define_all_run : forall (h h2 : list sop),
+  exists st', sdefine_all (scope_run h) (scope_run h2) = Ok st' /\
+              st' = scope_run (h ++ define_all_hist (scope_run h2)).
+Proof. exact define_all_run. Qed.
+Print Assumptions C01_scope_define_all_run.
+
+(* for arbitrary states: whenever DefineAll does not panic it is that history *)
+Theorem C01_scope_define_all_as_history : forall (st other st' : sstate),
+  sdefine_all st other = Ok st' -> st' = fold_left sstep (define_all_hist other) st.
+Proof. exact define_all_as_history. Qed.
+Print Assumptions C01_scope_define_all_as_history.
+
+(* defect 16 (repaired by ab06f65) in the model: the copy of `A= y` / `#A= y` is IsDefined with a nil LastDefinition *)
+Example C01_scope_define_all_copies_commented :
+  exists st', sdefine_all [] (scope_run hist_real_then_commented) = Ok st' /\
+              is_defined st' name_A = true /\ last_definition st' name_A = None.
+Proof. exact define_all_copies_commented. Qed.
